@@ -21,7 +21,11 @@ RULE = (
     "append+process: delivered views == expected views (from the specs) of exactly the messages whose last character has been "
     "fed (lossless, ordered, once each, prompt); retained data is a suffix of what was fed; the consumer is only ever called "
     "with messages. Non-trivial: some message is split across >= 2 pieces; distinct = canonical JSON of (stream, partition, "
-    "threshold); partitions inside an exhaustive block are distinct by construction."
+    "threshold); partitions inside an exhaustive block are distinct by construction. 'handlers': the same oracle through the "
+    "real read loops of the TCP client handler (plain and BLOB-mode), the TCP server handler and the TTY server handler (fake "
+    "streams, a recording consumer / router): the byte stream arrives in chunks drawn from {1, 7, 100, 512, 1023, 1024, 1025, "
+    "2048, 3072} and, in half of the cases, inter-message whitespace is sized so that every message ends exactly on a multiple "
+    "of 1024 bytes (the handlers' read size); after every chunk the handler must have delivered exactly the completed messages."
 )
 ASSUMPTIONS = [
     "messages longer than an enabled threshold are outside the statement",
@@ -186,7 +190,128 @@ def stream_block(draw, mode):
     return {"items": items, "mode": mode, "threshold": thr}
 
 
+READ_SIZES = [1, 7, 100, 512, 1023, 1024, 1024, 1024, 1025, 2048, 3072]
+
+
+class _RecRouter:
+    """Stands in for the Router behind a server-side handler: records what the handler hands over."""
+
+    def __init__(self, sink):
+        self.sink = sink
+        self.clients = []
+
+    def register_client(self, c):
+        self.clients.append(c)
+
+    def unregister_client(self, c):
+        if c in self.clients:
+            self.clients.remove(c)
+
+    def process_message(self, message, sender=None):
+        self.sink(message)
+
+
+def check_handlers(case):
+    """case: {"items": [...], "sizes": [int...], "which": "client"|"client-blobs"|"server"|"tty", "align": bool}"""
+    from indi.message import IndiMessage
+
+    from harness import net
+
+    which = case["which"]
+    text, ends, views = "", [], []
+    for it in case["items"]:
+        t, end, v = buf.render_item(it)
+        if case.get("align"):
+            t = " " * ((-(len(text) + end)) % 1024) + t
+            end = t.rindex(">") + 1
+        if which == "tty":
+            t = t[:end] + "\n"  # a terminal delivers lines
+        ends.append(len(text) + end)
+        views.append(v)
+        text += t
+    loop = net.new_loop()
+    try:
+        delivered = []
+
+        def sink(m):
+            if not isinstance(m, IndiMessage):
+                raise Failure("callback-non-message", f"{which} handler delivered {m!r}")
+            delivered.append(gen.view(m))
+
+        if which in ("client", "client-blobs"):
+            from indi.transport.client.tcp import ConnectionHandler
+
+            reader = net.FakeReader(loop)
+            h = ConnectionHandler(reader, net.FakeWriter(loop), sink, for_blobs=which == "client-blobs")
+        elif which == "server":
+            from indi.transport.server.tcp import ConnectionHandler
+
+            reader = net.FakeReader(loop)
+            h = ConnectionHandler(reader, net.FakeWriter(loop), _RecRouter(sink))
+        else:
+            from indi.transport.server.tty import ConnectionHandler
+
+            reader = net.FakeStdin(loop)
+            h = ConnectionHandler(_RecRouter(sink), reader, net.FakeStdout(loop))
+        thr = h.buffer.max_buffer_size_before_frontal_cleanup
+        if thr is not None and max(buf.element_lengths(case["items"])) > thr:
+            return Info(nontrivial=False, labels=["skipped-longer-than-threshold"])
+        task = loop.create_task(h.wait_for_messages())
+        loop.drain()
+        sizes = [max(1, int(x)) for x in case["sizes"]] or [1024]
+        data = text.encode("latin1")
+        fed, i, full_read_end = 0, 0, False
+        while fed < len(data):
+            n = sizes[i % len(sizes)]
+            i += 1
+            piece = data[fed:fed + n]
+            if which == "tty":
+                # whole lines only: extend the piece to the next newline
+                j = data.find(b"\n", fed + len(piece) - 1)
+                piece = data[fed:(j + 1) if j >= 0 else len(data)]
+                reader.feed(piece.decode("latin1"))
+            else:
+                reader.feed(piece)
+            fed += len(piece)
+            loop.drain()
+            if task.done():
+                exc = task.exception()
+                raise Failure(f"handler-stops:{which}:{type(exc).__name__ if exc else 'returned'}", f"read loop ended after {fed}/{len(data)} bytes: {exc!r}")
+            k = sum(1 for e in ends if e <= fed)
+            if fed % 1024 == 0 and fed in ends:
+                full_read_end = True
+            if delivered != views[:k]:
+                kind = "late-or-lost" if len(delivered) < k else ("extra-or-early" if len(delivered) > k else "content-differs")
+                raise Failure(
+                    f"handlers:{which}:{kind}",
+                    f"after {fed}/{len(data)} bytes in chunks {sizes} (align={case.get('align')}): the {which} handler delivered {len(delivered)} messages, "
+                    f"{k} are complete; message ends at {ends}",
+                )
+        reader.feed_eof()
+        loop.drain()
+        if delivered != views:
+            raise Failure(f"handlers:{which}:after-eof", f"delivered {len(delivered)} of {len(views)} messages")
+        labs = [which, "aligned" if case.get("align") else "unaligned"]
+        if full_read_end:
+            labs.append("message-ends-on-1024-boundary-of-a-chunk")
+        return Info(nontrivial=len(data) > min(sizes) or full_read_end, labels=labs)
+    finally:
+        loop.shutdown()
+
+
+@st.composite
+def handler_case(draw):
+    items = draw(st.lists(buf.msg_item(), min_size=1, max_size=5))
+    return {
+        "items": items,
+        "sizes": draw(st.lists(st.sampled_from(READ_SIZES), min_size=1, max_size=5)),
+        "which": draw(st.sampled_from(["client", "client-blobs", "server", "tty"])),
+        "align": draw(st.booleans()),
+    }
+
+
 SUBCHECKS = {
+    "handlers": check_handlers,
     "cuts1": check_block, "cuts2": check_block, "cuts3": check_block, "charwise": check_block,
     "random": check_cuts, "cuts1-hyp": check_block, "charwise-hyp": check_block,
 }
@@ -215,5 +340,6 @@ def run(ctx):
         blocks3 = [{"items": s, "mode": "all3", "threshold": t} for s in three for t in THRESHOLDS]
         ctx.each("cuts3", blocks3, check_block, stop_after=4, timeout=3000)
     ctx.hyp("random", stream_case(), check_cuts, ctx.scale(400, 12000))
+    ctx.hyp("handlers", handler_case(), check_handlers, ctx.scale(300, 6000))
     ctx.hyp("cuts1-hyp", stream_block("all1"), check_block, ctx.scale(40, 1500), timeout=300)
     ctx.hyp("charwise-hyp", stream_block("charwise"), check_block, ctx.scale(40, 1500), timeout=300)
